@@ -17,7 +17,7 @@ import (
 
 const (
 	property = "C06"
-	rule     = "random DB programs (writes, flushes, automatic/seek/manual compactions on sub-ranges, trivial moves, transaction commits, reopen) x option lattice x 4 comparers; after EVERY installed version (commit hook) every live table is re-read and the C06 conditions are checked: file exists with recorded size, strictly ordered, recorded smallest/largest = first/last, level 0 newest first, deeper levels ordered and disjoint, shallower newer than deeper per user key; for EVERY table compaction the inputs must be closed on the version it was picked on (every next-level table overlapping the user-key hull of the source inputs is an input; at level 0 every level-0 table overlapping it too); non-trivial = a version with >=3 populated levels was installed; plus twin scenarios (writes, reopen, range compactions; run fault-free and with transient table faults armed before each range compaction; table contents per level, cuts and a full scan must agree; the builder of a whole-level compaction driven with and without faults must write the same tables) - a twin is non-trivial when an injected fault fired and the final version has >=2 levels"
+	rule     = "random DB programs (writes, flushes, automatic/seek/manual compactions on sub-ranges, trivial moves, transaction commits, reopen) x option lattice x 4 comparers; after EVERY installed version (commit hook) every live table is re-read and the C06 conditions are checked: file exists with recorded size, strictly ordered, recorded smallest/largest = first/last, level 0 newest first, deeper levels ordered and disjoint, shallower newer than deeper per user key; for EVERY table compaction the inputs must be closed on the version it was picked on (every next-level table overlapping the user-key hull of the source inputs is an input; at level 0 every level-0 table overlapping it too); non-trivial = a version with >=3 populated levels was installed; plus twin scenarios (writes, reopen, range compactions; run fault-free and with transient table faults armed before each range compaction; table contents per level, cuts and a full scan must agree; the builder of a whole-level compaction driven with and without faults must write the same tables) - a twin is non-trivial when an injected fault fired and the final version has >=2 levels; plus the LOOPS: directed scenarios (tiny CompactionTableSize / CompactionSourceLimitFactor / CompactionTotalSize, values far above the table size, 4 comparers) of write rounds each followed by CompactRange and/or a wait for quiescence under a watchdog - CompactRange must return within 20 s, afterwards every table overlapping the range must sit in ONE level >= 1 (judged on the version the retry loop ended with), background compaction must go idle (needCompaction false) within 20 s, a full scan must equal the map after each - a loop scenario is non-trivial when it ran a range compaction and reached a quiescent point; the same two oracles run after every CompactRange of the generated programs"
 	header   = "From GL Require Import Corr.C06Run."
 	checkWf  = true
 )
@@ -32,7 +32,7 @@ func tweakCfg(r *vlib.RNG, c *dbh.Cfg) {
 }
 
 // plainHooks: what replays and the shrinker run with (oracles only, no case collection).
-func plainHooks() dbh.Hooks { return dbh.PickHooks(nil, nil, false, 1) }
+func plainHooks() dbh.Hooks { return dbh.LoopHooks(dbh.PickHooks(nil, nil, false, 1), nil, false) }
 
 // runTwinPair runs one scenario fault-free and with faults and compares; it returns a failure text or "".
 func runTwinPair(ts dbh.TwinSpec, col *dbh.PickCol, collect bool, res *vlib.Result) string {
@@ -75,6 +75,19 @@ func main() {
 			fmt.Println("replay passes")
 			return
 		}
+		if ls, ok := dbh.LoadLoopSpec(a.Replay); ok {
+			for i := 0; i < 2; i++ {
+				res.Eval(fmt.Sprintf("loop-replay%d", i), true)
+				lr := dbh.RunLoop(*ls, nil, false)
+				if lr.Failure != "" {
+					fmt.Println("replay fails:", lr.Failure)
+					res.ViolateKnown(lr.Failure, ls, lr.Known)
+					return
+				}
+			}
+			fmt.Println("replay passes")
+			return
+		}
 		p, err := dbh.LoadProgram(a.Replay)
 		if err != nil {
 			fmt.Println("cannot load replay:", err)
@@ -107,6 +120,30 @@ func main() {
 		ntwins *= 4
 	}
 	col := dbh.NewPickCol(caps)
+	nloops := 40
+	loopCaps := map[string]int{"range": 96, "score": 120, "auto": 120}
+	if a.Thorough() {
+		nloops = 600
+		loopCaps = map[string]int{"range": 400, "score": 500, "auto": 500}
+	}
+	if strings.Contains(a.Extra, "search") && !a.Thorough() {
+		nloops *= 4
+	}
+	lcol := dbh.NewLoopCol(loopCaps)
+	// the loops that drive table compactions, first: directed scenarios with tiny limits under a watchdog.  The known
+	// shape (flat level limits) runs alone: a DB that never goes idle keeps the process-wide busy counter up.
+	loopHangs := runLoops(a.Seed, nloops, lcol, res)
+	if loopHangs >= 2 {
+		// CompactRange or the background loop does not terminate: the generated programs (which call both without a
+		// per-call watchdog) would only repeat that at 120 s apiece
+		res.Count("programs_skipped_after_loop_hangs", 1)
+		lcases, lcounts := lcol.Select()
+		for k, v := range lcounts {
+			res.Count(k, v)
+		}
+		res.WriteCases(header, "c06case", "mismatches06", lcases, 4)
+		return
+	}
 	root := vlib.NewRNG(a.Seed)
 	type job struct {
 		i int
@@ -128,7 +165,7 @@ func main() {
 				p.Seed = a.Seed
 				collectWf := j.i%2 == 0
 				kr := r.Fork()
-				rr, rn := dbh.RunPick(p, dbh.PickHooks(col, kr, true, 16), checkWf, func(rn *dbh.Runner) {
+				rr, rn := dbh.RunPick(p, dbh.LoopHooks(dbh.PickHooks(col, kr, true, 16), lcol, true), checkWf, func(rn *dbh.Runner) {
 					rn.CollectK = collectWf
 					rn.KCap = kPerRun
 				})
@@ -205,5 +242,68 @@ func main() {
 	for k, v := range counts {
 		res.Count(k, v)
 	}
+	lcases, lcounts := lcol.Select()
+	for k, v := range lcounts {
+		res.Count(k, v)
+	}
+	cases = dbh.Interleave(cases, lcases, shards)
 	res.WriteCases(header, "c06case", "mismatches06", cases, shards)
+}
+
+// runLoops runs the directed loop scenarios; it returns the number of watchdog failures (calls that did not return,
+// background compaction that did not go idle) that are not instances of a known finding.
+func runLoops(seed uint64, n int, lcol *dbh.LoopCol, res *vlib.Result) int {
+	lroot := vlib.NewRNG(seed ^ 0x100b5)
+	report := func(ls dbh.LoopSpec, lr dbh.LoopResult) {
+		for k, v := range lr.Stats {
+			if strings.HasPrefix(k, "loop_") || k == "auto_picks_observed" || k == "table_compactions" || k == "trivial_moves" {
+				res.Count("loops_"+strings.TrimPrefix(k, "loop_"), v)
+			}
+		}
+		res.Count("loop_scenarios", 1)
+		if lr.Failure != "" {
+			res.Count("loop_scenarios_failed", 1)
+			res.ViolateKnown(lr.Failure+fmt.Sprintf(" [loop scenario seed %d flat=%v]", ls.LoopSeed, ls.Flat), ls, lr.Known)
+		}
+	}
+	// the known shape, alone
+	flat := dbh.LoopSpec{LoopSeed: lroot.Uint64() >> 1, Flat: true}
+	lr := dbh.RunLoop(flat, lcol, true)
+	res.Eval("loop-flat", lr.Known != "")
+	if lr.Known == "" && lr.Failure == "" {
+		res.Count("loop_flat_limits_went_idle", 1)
+	}
+	report(flat, lr)
+	var mu sync.Mutex
+	hangs := 0
+	jobs := make(chan dbh.LoopSpec)
+	var wg sync.WaitGroup
+	for wk := 0; wk < 8; wk++ {
+		wg.Add(1)
+		go func() {
+			defer wg.Done()
+			for ls := range jobs {
+				lr := dbh.RunLoop(ls, lcol, true)
+				mu.Lock()
+				res.Eval(fmt.Sprintf("loop-%d", ls.LoopSeed), lr.Stats["loop_range_compactions"] > 0 && lr.Stats["loop_quiescent_points"] > 0)
+				report(ls, lr)
+				if lr.Hang && lr.Known == "" {
+					hangs++
+				}
+				mu.Unlock()
+			}
+		}()
+	}
+	for i := 0; i < n; i++ {
+		mu.Lock()
+		h := hangs
+		mu.Unlock()
+		if h >= 3 {
+			break
+		}
+		jobs <- dbh.LoopSpec{LoopSeed: lroot.Uint64() >> 1}
+	}
+	close(jobs)
+	wg.Wait()
+	return hangs
 }
